@@ -499,12 +499,41 @@ func c04Widths(r *run.Run) {
 		})
 }
 
+// c04WidthsFew: fonts with one, two and three glyphs (the writer chooses defaultWidthX and nominalWidthX by other rules
+// when there is hardly anything to count) over a list of widths that includes fractions with ten significant digits,
+// which a number of the private dictionary cannot hold.
+func c04WidthsFew(r *run.Run) {
+	ws := []float64{0, 500, 500.5, 393, 1000, -50, 1131.75, 32000, 499.99998, 12345.67895, 20000.00004, 31999.99996, -15000.12345, 0.00002}
+	r.Explore(explore.Config{Name: "C04.widths-few"},
+		fmt.Sprintf("all fonts with 1, 2 and 3 glyphs and widths from %v: every width is recovered to 2^-16 from the charstring and the stored defaultWidthX / nominalWidthX", ws),
+		func(c *explore.Ctx) {
+			ng := 1 + c.Choose(3, "number of glyphs")
+			var gl []*cff.Glyph
+			names := []string{".notdef", "A", "B"}
+			var wsel []float64
+			for i := 0; i < ng; i++ {
+				w := ws[c.Choose(len(ws), "width")]
+				wsel = append(wsel, w)
+				g := cff.NewGlyph(names[i], w)
+				if c.Choose(2, "blank glyph") == 0 {
+					g.MoveTo(0, 0)
+					g.LineTo(10, float64(i))
+				}
+				gl = append(gl, g)
+			}
+			c.Sample(func() any { return wsel })
+			c.Nontrivial()
+			c04Check(c, fmt.Sprintf("%d glyphs", ng), gl, wsel)
+		})
+}
+
 func init() {
 	Register("C04", func(r *run.Run) {
 		r.Rule = "bounded exhaustive enumeration of glyph programs, stem/mask layouts and width assignments; the emitted CFF is walked by the independent reader and every charstring executed by the strict independent interpreter (operand counts, stack depth <= 48, endchar)"
 		r.Assume = []string{"reft2/refcff are the trusted base", "coordinates within +-32000; single deltas within the 16.16 range"}
 		c04Programs(r)
 		c04Stems(r)
+		c04WidthsFew(r)
 		c04Widths(r)
 	})
 }
